@@ -1,12 +1,12 @@
 package main
 
 import (
-	"time"
-	"reflect"
 	"fmt"
 	"net/url"
+	"reflect"
 	"regexp"
 	"strings"
+	"time"
 	"unicode/utf8"
 
 	pongo2 "github.com/flosch/pongo2/v6"
